@@ -79,14 +79,37 @@ class Analysis(af.Analysis):
         state["hook"] = None
         return state
 
+    def _pt(self, name, occ):
+        # a point where USER code runs inside the fit life-cycle: occ 0 = the hook is entered, 1 = it has done its work
+        if self.hook is not None:
+            self.hook.user_point(name, occ)
+
+    def modify_before_fit(self, paths, model):
+        self._pt("modify_before_fit", 0)
+        self._pt("modify_before_fit", 1)
+        return self
+
+    def modify_after_fit(self, paths, model, result):
+        self._pt("modify_after_fit", 0)
+        self._pt("modify_after_fit", 1)
+        return self
+
     def save_attributes(self, paths):
         # a user file written before the search starts (like data.json of a real analysis)
+        self._pt("save_attributes", 0)
         paths.save_json("verif_attr", {"what": "attributes of the analysis"})
+        self._pt("save_attributes", 1)
 
     def save_results(self, paths, result):
         # a user result file: must be on disk before `.completed`
+        self._pt("save_results", 0)
         paths.save_json("verif_result", {
             "log_likelihood": result.samples_summary.max_log_likelihood_sample.log_likelihood})
+        self._pt("save_results", 1)
+
+    def save_results_combined(self, paths, result):
+        self._pt("save_results_combined", 0)
+        self._pt("save_results_combined", 1)
 
     def log_likelihood_function(self, instance):
         if self.hook is not None:
@@ -97,7 +120,40 @@ class Analysis(af.Analysis):
         return base - 100.0 * float(self.tag)
 
     def should_visualize(self, paths, during_analysis=True):
-        return False
+        # histories with "vis": the visualize hooks are called (they write nothing); the library's own plots stay off
+        # (perform_visualization asks a second time, right after visualize_combined, before plotting)
+        if not getattr(self, "vis", False):
+            return False
+        if getattr(self, "_just_visualized", False):
+            self._just_visualized = False
+            return False
+        return True
+
+    def visualize_before_fit(self, paths, model, **kw):
+        self._pt("visualize_before_fit", 0)
+        self._pt("visualize_before_fit", 1)
+
+    def visualize_before_fit_combined(self, paths, model, **kw):
+        self._pt("visualize_before_fit_combined", 0)
+        self._pt("visualize_before_fit_combined", 1)
+
+    def visualize(self, paths, instance, during_analysis=True, **kw):
+        self._pt("visualize", 0)
+        self._pt("visualize", 1)
+
+    def visualize_combined(self, paths, instance, during_analysis=True, **kw):
+        self._pt("visualize_combined", 0)
+        self._just_visualized = True
+        self._pt("visualize_combined", 1)
+
+
+EXC_KINDS = {
+    "KeyboardInterrupt": lambda: KeyboardInterrupt("verif: injected at a user hook"),
+    "SystemExit": lambda: SystemExit(3),
+    "MemoryError": lambda: MemoryError("verif: injected at a user hook"),
+    "OSError": lambda: OSError(28, "No space left on device (verif: injected at a user hook)"),
+    "RuntimeError": lambda: RuntimeError("verif: injected at a user hook (bug in user code)"),
+}
 
 
 def make_model(variant=0):
@@ -202,6 +258,9 @@ class Hook:
         self.ll_calls = 0
         self.main_pid = os.getpid()
         self.folder = None      # neighbours histories: the running fit's folder relative to the output directory
+        self.hooks = []         # user hook points passed: [name, occ, number of mutation events so far, raised here?]
+        self.hook_seen = {}
+        self.raised = None      # the exception injected at a user hook point (crash kind EXC)
 
     def rel(self, p):
         r = p[len(self.root):]
@@ -209,7 +268,7 @@ class Hook:
 
     def die(self, truncated=None):
         self.active = False
-        rep = {"outcome": "crashed", "trace": self.trace, "truncated": truncated, "crash_index": self.ck}
+        rep = {"outcome": "crashed", "trace": self.trace, "truncated": truncated, "crash_index": self.ck, "hooks": self.hooks}
         rep.update(self.extra)
         with open(self.report_path, "w") as f:
             json.dump(rep, f)
@@ -272,13 +331,40 @@ class Hook:
         self.last = (kind, path)
 
     def likelihood_call(self):
-        """Crash kind LL: the process dies at its occ-th likelihood evaluation (no file-system event involved)."""
-        if self.active and self.crash is not None and self.crash.get("kind") == "LL":
+        """Crash kind LL: the process dies at its occ-th likelihood evaluation (no file-system event involved).
+        Crash kind EXC on role LL: the occ-th likelihood evaluation raises instead."""
+        if not self.active or self.crash is None or os.getpid() != self.main_pid and self.crash.get("kind") == "EXC":
+            return
+        if self.crash.get("kind") == "LL":
             n = self.ll_calls
             self.ll_calls += 1
             if n == self.crash.get("occ", 0):
                 self.ck = len(self.trace)
                 self.die()
+        elif self.crash.get("kind") == "EXC" and self.crash.get("role") == "LL" and self.raised is None:
+            n = self.ll_calls
+            self.ll_calls += 1
+            if n == self.crash.get("occ", 0):
+                self.inject("LL", n)
+
+    def inject(self, name, occ):
+        self.ck = len(self.trace)
+        self.raised = EXC_KINDS[self.crash["exc"]]()
+        self.hooks.append([name, occ, len(self.trace), True])
+        raise self.raised
+
+    def user_point(self, name, occ):
+        """Crash kind EXC: an exception (crash["exc"]) is raised at the nth passage of point (role = hook name, occ = 0 on
+        entry / 1 after the hook's own work) and propagates through the library like any error in user code."""
+        if not self.active:
+            return
+        cr = self.crash
+        n = self.hook_seen.get((name, occ), 0)
+        self.hook_seen[(name, occ)] = n + 1
+        if (cr is not None and cr.get("kind") == "EXC" and self.raised is None and cr.get("role") == name
+                and cr.get("occ", 0) == occ and cr.get("nth", 0) == n):
+            self.inject(name, occ)
+        self.hooks.append([name, occ, len(self.trace), False])
 
     def check_rename_source(self, src):
         """os.replace(tmp, final) must move a closed, complete file: anything else re-opens the truncation window."""
@@ -429,6 +515,7 @@ def child(case, outdir, run_index, crash, report_path):
         random.seed(999 + run_index + case.get("salt", 0))
         # with check_likelihood_function the likelihood must not change between runs: no run tag
         analysis = Analysis(0 if case.get("chk") else run_index)
+        analysis.vis = bool(case.get("vis"))
         session = af.db.open_database(os.path.join(outdir, "db.sqlite")) if case.get("db") else None
         fit = case["fits"][case["runs"][run_index]["fit"]] if case.get("fits") else None
         search = make_search(case, session, fit)
@@ -446,10 +533,21 @@ def child(case, outdir, run_index, crash, report_path):
             hook.active = False
             rep["outcome"] = "ok"
             rep["result"] = result_info(result)
+            if hook.raised is not None:
+                rep["swallowed"] = type(hook.raised).__name__      # the library caught the user hook's exception and went on
         except BaseException as e:  # noqa
             hook.active = False
-            rep["outcome"] = "exc:" + exc_name(e)
+            if hook.raised is not None:
+                # death by the injected exception (or by whatever the library turned it into): the process ends here.
+                # Every mutation performed while it propagated (finally / except blocks of the library) is in the trace.
+                rep["outcome"] = "crashed"
+                rep["death"] = type(hook.raised).__name__
+                rep["death_as"] = type(e).__name__
+                rep["crash_index"] = hook.ck
+            else:
+                rep["outcome"] = "exc:" + exc_name(e)
             rep["msg"] = str(e)[:200]
+        rep["hooks"] = hook.hooks
         rep["trace"] = hook.trace
         rep["bad_rename"] = hook.extra.get("bad_rename")
         rep["names"] = hook.extra.get("names")
@@ -725,6 +823,7 @@ def run_history(case, idx):
             "truncated": [role_of(rep["truncated"][0]), rep["truncated"][1]] if rep.get("truncated") else None,
             "evals": rep.get("evals"),
             "names": rep.get("names"),
+            "hooks": rep.get("hooks"), "death": rep.get("death"), "death_as": rep.get("death_as"), "swallowed": rep.get("swallowed"),
             "result": res,
             "result_tag": tag_of_ll(float.fromhex(res["summary_ll"])) if res and res.get("summary_ll") else None,
             "samples_tag": (tag_of_ll(max(float.fromhex(x) for x in res["samples_ll"]))
